@@ -133,6 +133,10 @@ class Report:
                     samples.append({k: (v if isinstance(v, (int, bool, type(None))) else str(v))
                                     for k, v in i.items() if k in ('rule', 'key', 'where', 'fact', 'expected', 'verdict')})
                 seen_rules.add(i['rule'])
+        rule_counts = {}
+        for i in self.instances:
+            rc = rule_counts.setdefault(i['rule'], dict(holds=0, violated=0, known_finding=0))
+            rc[{'holds': 'holds', 'violated': 'violated', 'known-finding': 'known_finding'}[i['verdict']]] += 1
         ev = dict(
             property_id=self.prop,
             tier=self.tier,
@@ -150,6 +154,7 @@ class Report:
                 samples=samples,
                 functions_analysed=sorted(self.functions),
                 rules=self.rules,
+                rule_instance_counts=rule_counts,
                 floors=self.floors,
                 fixtures_fired=self.fixtures,
                 undecided=self.undecided[:40],
